@@ -19,11 +19,12 @@ theorem C07_lex_total (input : Bytes) :
     ∃ l, lex true input = some l ∧ ∃ init last, l = init ++ [last] ∧ (last.typ = .eof ∨ last.typ = .error) :=
   lex_total input
 
-theorem C07_parse_no_diverge_partial (input : Bytes) : (match parse true input with | .diverge => False | _ => True) := by
+theorem C07_parse_no_diverge_partial (chk : Stmt → Bool) (input : Bytes) :
+    (match parse chk true input with | .diverge => False | _ => True) := by
   obtain ⟨l, hl, _⟩ := lex_total input
   simp only [parse, hl]
   generalize (do
-      let (st, s1) ← pStmt input (l.length + 2) { items := l }
+      let (st, s1) ← pStmt chk input (l.length + 2) { items := l }
       let (_, s2) ← expectT .eof s1
       pure (st, s2) : P (Stmt × PS)) = r
   rcases r with ⟨e, n⟩ | ⟨st, s⟩
